@@ -5,6 +5,8 @@ import json
 CHECKS = {
  "C07": ("three rules with every field read by IsHigherPriority symbolic (64-bit option words, 32-bit type masks, exception flags, list lengths 0..1, client sets nil or not): irreflexive, asymmetric, transitive, transitive ties, class order, specific over generic, adding a modifier raises priority",
          "InvRule; go/ssa lowering; engine; z3"),
+ "C08": ("twin lemma over two fully symbolic rules (all compared fields incl. list contents) and removeBadfilterRules over k<=3/4 symbolic rules for every $badfilter subset: result == non-badfilter rules without a twin, no duplicates, caller slice untouched",
+         "InvRule; list entries one symbolic letter; go/ssa lowering; engine; z3"),
  "C16": ("unbounded in the fields the function reads (64-bit option word, 32-bit mask, exception flag fully symbolic under the parser's representation invariant); counterexamples replayed from rule text through the real parser",
          "InvRule on option words (validated natively on the repo's own rule corpus); go/ssa lowering; engine; z3"),
 }
